@@ -219,7 +219,11 @@ func realRun(op *wire.Rec, withLog bool) (out *realOut) {
 				done <- nil
 			}
 		}()
-		res, err = simulation.Run(&simulation.RunOpts{Config: realConfig(op), Eval: eval.New(context.TODO(), list.Program), Seed: int64(op.Int("seed")), Loggers: loggers})
+		ev := realEvalReuse // one evaluator value used for several runs (Init sets it up anew for each)
+		if ev == nil {
+			ev = eval.New(context.TODO(), list.Program)
+		}
+		res, err = simulation.Run(&simulation.RunOpts{Config: realConfig(op), Eval: ev, Seed: int64(op.Int("seed")), Loggers: loggers})
 	}()
 	select {
 	case p := <-done:
@@ -251,6 +255,9 @@ func realRun(op *wire.Rec, withLog bool) (out *realOut) {
 	out.cd, out.ct = res.CumulativeDamageDealtByCycle, res.CumulativeDamageTakenByCycle
 	return out
 }
+
+// when set, realRun hands this evaluator to the run instead of a new one
+var realEvalReuse *eval.Eval
 
 var invalidKeyRe = regexp.MustCompile(`invalid (character|enemy)|(light ?cone|relic)[^:]*not|not registered|invalid light|invalid relic|unknown (character|light|relic|enemy)`)
 
@@ -406,6 +413,23 @@ func (realComp) Exec(c *wire.Case, w *wire.Writer) {
 					at, a, b := firstDiff(first.lines, o.lines)
 					w.Ob(wire.R("differs").S("where", "same-process").I("rep", i+1).I("line", at).S("a", clip(a)).S("b", clip(b)).S("kinds", first.kind+"/"+o.kind))
 					break
+				}
+			}
+			if same {
+				// the repetitions again with one evaluator value for all of them (what a caller that keeps its evaluator does):
+				// every run re-initialises it, so nothing of an earlier run may show
+				if list, err := parse.New(unhex(op.Str("script"))).Parse(); err == nil {
+					realEvalReuse = eval.New(context.TODO(), list.Program)
+					for i := 0; i < op.Int("k"); i++ {
+						o := realRun(op, true)
+						if o.digest() != first.digest() {
+							same = false
+							at, a, b := firstDiff(first.lines, o.lines)
+							w.Ob(wire.R("differs").S("where", "same-evaluator").I("rep", i+1).I("line", at).S("a", clip(a)).S("b", clip(b)).S("kinds", first.kind+"/"+o.kind))
+							break
+						}
+					}
+					realEvalReuse = nil
 				}
 			}
 			if same {
